@@ -369,6 +369,15 @@ func key(k string, cfg Cfg, fs []string, r *result) string {
 		if cfg.Op == "referrers" && r != nil && r.err == nil {
 			// the referrers API probe ignores errors: a transient fault makes the client fall back
 			// to the tag scheme and return that list without an error
+			// (known for the FIRST page, which doubles as the probe; a later page is an ordinary request)
+			for _, e := range r.net.Log {
+				if e.Kind == "referrers" && strings.HasPrefix(e.Note, "fault") {
+					if (e.Query.Get("offset") != "" || e.Query.Get("last") != "") && !fk["trunc"] {
+						return "recovery referrers-silent-fallback fault-on-a-later-page"
+					}
+					break
+				}
+			}
 			return "recovery referrers-silent-fallback"
 		}
 		if fk["trunc"] {
